@@ -133,6 +133,7 @@ func Start(t testing.TB, o Options) *Node {
 	os.Args = []string{"nuts", "server"}
 	done := make(chan error, 1)
 	go func() { done <- cmd.Execute(ctx, system) }()
+	in, pub = env["NUTS_HTTP_INTERNAL_ADDRESS"], env["NUTS_HTTP_PUBLIC_ADDRESS"] // may have been overridden by o.Env
 	n := &Node{Internal: "http://" + in, Public: "http://" + pub, DataDir: dir, System: system}
 	deadline := time.Now().Add(60 * time.Second)
 	for {
